@@ -99,9 +99,9 @@ var intRepBits = map[string]struct {
 }{"int64": {64, true}, "int": {64, true}, "int32": {32, true}, "int16": {16, true}, "int8": {8, true},
 	"uint64": {64, false}, "uint": {64, false}, "uint32": {32, false}, "uint16": {16, false}, "uint8": {8, false}}
 
-// repEdge: the integer value a sits at a boundary of the Go integer type of THIS representation (its min / max and their neighbours, and
-// for an unsigned type the sign-reinterpretation boundary 2^(bits-1) +- 1): such (value, representation) pairs are never thinned out
-// by the quick tier.
+// repEdge: the integer value a sits at a boundary of the Go integer type of THIS representation (its min / max and, for an unsigned
+// type, the sign-reinterpretation boundary 2^(bits-1)): such (value, representation) pairs are never thinned out by the quick tier
+// (the thorough tier runs every value in every representation anyway).
 func repEdge(sr *srep, a *aval) bool {
 	ib, ok := intRepBits[sr.name]
 	if !ok || a.kind != "int" {
@@ -111,14 +111,9 @@ func repEdge(sr *srep, a *aval) bool {
 	if !ib.signed {
 		lo, hi = big.NewInt(0), new(big.Int).Sub(pow2(ib.bits), big.NewInt(1))
 	}
-	var edges []*big.Int
-	for _, d := range []int64{0, 1} {
-		edges = append(edges, new(big.Int).Add(lo, big.NewInt(d)), new(big.Int).Sub(hi, big.NewInt(d)))
-	}
+	edges := []*big.Int{lo, hi}
 	if !ib.signed {
-		for _, d := range []int64{-1, 0, 1} {
-			edges = append(edges, new(big.Int).Add(pow2(ib.bits-1), big.NewInt(d)))
-		}
+		edges = append(edges, pow2(ib.bits-1))
 	}
 	for _, e := range edges {
 		if e.Cmp(a.z) == 0 {
